@@ -556,6 +556,99 @@ func TestStringMembership(t *testing.T) {
 	evid.Exhaustive("needle x haystack over valid, invalid and partial encodings; byte slices and for-in characters as needles", n)
 }
 
+// TestConstantTails: `x + c1 + c2` is ((x + c1) + c2): float addition is not associative, so the grouping shows in the
+// value when x is a float at the precision boundary - as a variable, a point key, a call result.
+func TestConstantTails(t *testing.T) {
+	xs := []any{9007199254740992.0, 5e-7, 1e16, 0.1, -9007199254740992.0, 4503599627370497.0, 1e-300, int64(9007199254740992), int64(5), "s", nil}
+	n := 0
+	for xi, x := range xs {
+		for _, ops := range [][2]string{{"+", "+"}, {"+", "-"}, {"-", "+"}, {"-", "-"}, {"*", "*"}, {"*", "/"}, {"/", "*"}, {"+", "*"}} {
+			for _, cs := range [][2]int64{{1, 1}, {1, 2}, {3, 1}, {2, 2}} {
+				for src := 0; src < 3; src++ {
+					var prog []*gen.Node
+					c := sem.NewCase(nil)
+					c.Fields = map[string]any{"other": int64(1)}
+					var xn *gen.Node
+					switch src {
+					case 0:
+						prog = append(prog, gen.NSet("x", sgen.Lit(x)))
+						xn = id("x")
+					case 1:
+						if !sgen.IsScalar(x) {
+							continue
+						}
+						c.Fields["x"] = x
+						xn = id("x")
+					default:
+						xn = gen.NCall("pval", sgen.Lit(x))
+					}
+					e := gen.NBin(ops[1], gen.NBin(ops[0], xn, gen.NInt(cs[0])), gen.NInt(cs[1]))
+					e4 := gen.NBin(ops[0], gen.NBin(ops[1], gen.NBin(ops[0], xn.Clone(), gen.NInt(cs[0])), gen.NInt(cs[1])), gen.NInt(cs[0]))
+					prog = append(prog, gen.NCall("probe", gen.NStr("r"), e, e4), gen.NCall("add_key", id("out"), e.Clone()))
+					c.Scripts[c.Root] = gen.FixAll(prog)
+					judge(t, "consttail", c, fmt.Sprintf("consttail/%d/%s%s/%d%d/%d", xi, ops[0], ops[1], cs[0], cs[1], src), "constant-tail")
+					n++
+				}
+			}
+		}
+	}
+	evid.Exhaustive("left operand (floats at the precision boundary, ints, others) x operator pair x constants x where x comes from", n)
+}
+
+// TestNestedLogicalChains: a chain of && (or ||) one of whose operands holds another chain - in parentheses, as a call
+// argument, a list element, a comparison operand: every assignment of truth values, plus operands that are not bools.
+func TestNestedLogicalChains(t *testing.T) {
+	shapes := []func(outer, inner string, v []*gen.Node) *gen.Node{
+		func(o, i string, v []*gen.Node) *gen.Node { // a o (b i c i d) o e
+			return gen.NBin(o, gen.NBin(o, v[0], gen.NParen(gen.NBin(i, gen.NBin(i, v[1], v[2]), v[3]))), v[4])
+		},
+		func(o, i string, v []*gen.Node) *gen.Node { // (b i c i d) o a o e
+			return gen.NBin(o, gen.NBin(o, gen.NParen(gen.NBin(i, gen.NBin(i, v[1], v[2]), v[3])), v[0]), v[4])
+		},
+		func(o, i string, v []*gen.Node) *gen.Node { // a o pval(b i c i d) o e
+			return gen.NBin(o, gen.NBin(o, v[0], gen.NCall("pval", gen.NBin(i, gen.NBin(i, v[1], v[2]), v[3]))), v[4])
+		},
+		func(o, i string, v []*gen.Node) *gen.Node { // a o ((b i c i d) == true) o e
+			return gen.NBin(o, gen.NBin(o, v[0], gen.NParen(gen.NBin("==", gen.NParen(gen.NBin(i, gen.NBin(i, v[1], v[2]), v[3])), gen.NBool(true)))), v[4])
+		},
+		func(o, i string, v []*gen.Node) *gen.Node { // a o (true in [b i c i d]) o e
+			return gen.NBin(o, gen.NBin(o, v[0], gen.NParen(gen.NBin("in", gen.NBool(true), gen.NList(gen.NBin(i, gen.NBin(i, v[1], v[2]), v[3]))))), v[4])
+		},
+		func(o, i string, v []*gen.Node) *gen.Node { // a o b o (c i d i e)  - the inner chain last
+			return gen.NBin(o, gen.NBin(o, v[0], v[1]), gen.NParen(gen.NBin(i, gen.NBin(i, v[2], v[3]), v[4])))
+		},
+	}
+	n := 0
+	for si, sh := range shapes {
+		for _, ops := range [][2]string{{"&&", "||"}, {"||", "&&"}, {"&&", "&&"}, {"||", "||"}} {
+			for mask := 0; mask < 32; mask++ {
+				var pre, v []*gen.Node
+				for k := 0; k < 5; k++ {
+					nm := string(rune('a' + k))
+					pre = append(pre, gen.NSet(nm, gen.NBool(mask&(1<<k) != 0)))
+					v = append(v, id(nm))
+				}
+				e := sh(ops[0], ops[1], v)
+				prog := append(pre, gen.NCall("probe", gen.NStr("r"), e), gen.NIf([]*gen.Node{e.Clone()}, [][]*gen.Node{{gen.NCall("probe", gen.NStr("then"))}}, []*gen.Node{gen.NCall("probe", gen.NStr("else"))}, true))
+				judge(t, "nested-logic", sem.NewCase(gen.FixAll(prog)), fmt.Sprintf("nestedlogic/%d/%s%s/%d", si, ops[0], ops[1], mask), "nested-logical-chain")
+				n++
+			}
+			// a non-bool as the last operand of the outer chain
+			var pre, v []*gen.Node
+			for k := 0; k < 4; k++ {
+				nm := string(rune('a' + k))
+				pre = append(pre, gen.NSet(nm, gen.NBool(ops[0] == "&&")))
+				v = append(v, id(nm))
+			}
+			v = append(v, gen.NInt(5))
+			prog := append(pre, gen.NCall("probe", gen.NStr("r"), sh(ops[0], ops[1], v)))
+			judge(t, "nested-logic", sem.NewCase(gen.FixAll(prog)), fmt.Sprintf("nestedlogic/%d/%s%s/nonbool", si, ops[0], ops[1]), "nested-logical-chain")
+			n++
+		}
+	}
+	evid.Exhaustive("shape of the nesting x operator pair x all 32 truth assignments (+ a non-bool operand)", n)
+}
+
 func genCase(t *rapid.T) (*sem.Case, *sgen.G) {
 	g := sgen.New(t)
 	g.Probes = true
